@@ -77,6 +77,15 @@ func (m *Machine) assert(c *Term, label string) {
 			}
 			return
 		}
+		// the condition is false outright: a violation iff this path is feasible at all
+		switch m.check() {
+		case Unsat:
+			m.obls = m.obls[:len(m.obls)-1]
+			panic(pathAbort{abortInfeasible, "path condition unsatisfiable (after an undecided branch)"})
+		case Unknown:
+			ob.Verdict = "unknown"
+			panic(pathAbort{abortUnknown, "ground-false assertion " + label + " on a path whose feasibility the solver could not decide"})
+		}
 		ob.Verdict = "ground-false"
 		m.captureCex(ob, nil)
 		panic(pathAbort{abortExit, "ground-false assertion " + label})
@@ -291,6 +300,7 @@ func registerNatives(P *Program) {
 		fr.m.lim.MaxSteps = fr.m.concreteInt(a[0], "Budget")
 		return nil
 	})
+	reg(V("UseSolver"), func(fr *frame, a []value) value { fr.m.oneShotKind = fr.m.str(a[0]); return nil })
 	reg(V("IsSymbolic"), func(fr *frame, a []value) value { return fr.m.tt.True })
 	reg(V("Bool"), func(fr *frame, a []value) value { return fr.m.newVar(fr.m.str(a[0]), BoolSort, "bool") })
 	reg(V("U8"), func(fr *frame, a []value) value { return fr.m.newVar(fr.m.str(a[0]), BV(8), "u8") })
@@ -559,6 +569,8 @@ func registerNatives(P *Program) {
 	reg("internal/abi.NoEscape", ident)
 	reg("strings.noescape", ident)
 	reg("internal/abi.Escape", ident)
+	reg("internal/stringslite.Clone", ident)
+	reg("strings.Clone", ident)
 
 	// ---- math ----
 	reg("math.Float64bits", func(fr *frame, a []value) value { return fr.m.floatBits(a[0].(*Term)) })
